@@ -19,7 +19,7 @@ Definition regularb (hashes : list ((Z * Z) * string)) (w : world) : bool :=
           && forallb (claim_quiet s) pods && Nat.eqb (length (claim_value s pods)) (length pods)
           && match gsr_value hashes s (sort_revs (lrevs w s)) with Some _ => true | None => false end
           && wfb s cnt slots pods && nodupb (map p_name pods)
-          && forallb (fun j => forallb (fun t => smemb (claim_name t (s_name s) j) (w_claims w)) (s_claims s)) (ordinals_of cnt slots)
+          && nodupb (flat_map (fun j => map (fun t => claim_name t (s_name s) j) (s_claims s)) (ordinals_of cnt slots))
       end
   end.
 Definition regular_case (c : round_case) : bool := regularb (fst c) (snd c).
